@@ -474,6 +474,14 @@ func (w *World) checkCacheUpdate(r *Report, fn *ssa.Function, mu *ssa.MapUpdate,
 				if imp != "" {
 					impure = imp
 				}
+				// lookup data of an entry that was read from the cache is never changed: a store
+				// into a lookup field whose reaching whole-value assignment is a cache lookup
+				// rewrites what a (type, name) key means on the strength of one object
+				if where := modifiesLookedUpEntry(al, isCacheMap); where != nil {
+					_, fld := fieldOfAddr(where.Addr.(*ssa.FieldAddr))
+					impure = "lookup field " + fld + " of an entry read from the cache is overwritten (" + w.posOf(where.Pos()) + ")"
+					r.bad("R20.3", ssaName(fn), "store entry."+fld+" on an entry read from the cache", w.posOf(where.Pos()), "the lookup data cached under a (type, name) key is changed after the fact, in a branch reached for one particular object (an unreadable field, a nil embedded pointer): every later lookup of that attribute on any value of the type gets the changed answer")
+				}
 				if whole == 0 && n == 0 {
 					other++ // a zero entry with statistics only
 				}
@@ -940,4 +948,67 @@ func blockReaches(from, to *ssa.BasicBlock) bool {
 		return false
 	}
 	return walk(from)
+}
+
+// modifiesLookedUpEntry: a store into a lookup (non-statistics) field of the local entry whose
+// reaching whole-value assignment is the result of a lookup in the cache map.
+func modifiesLookedUpEntry(al *ssa.Alloc, isCacheMap func(ssa.Value) bool) *ssa.Store {
+	if al.Referrers() == nil {
+		return nil
+	}
+	var wholes []*ssa.Store
+	var fields []*ssa.Store
+	for _, ref := range *al.Referrers() {
+		switch x := ref.(type) {
+		case *ssa.Store:
+			if x.Addr == ssa.Value(al) {
+				wholes = append(wholes, x)
+			}
+		case *ssa.FieldAddr:
+			_, f := fieldOfAddr(x)
+			if statFields[f] || x.Referrers() == nil {
+				continue
+			}
+			for _, r2 := range *x.Referrers() {
+				if st, ok := r2.(*ssa.Store); ok && st.Addr == ssa.Value(x) {
+					fields = append(fields, st)
+				}
+			}
+		}
+	}
+	before := func(a, b ssa.Instruction) bool { // a executes before b on every path to b
+		if a.Block() == b.Block() {
+			for _, in := range a.Block().Instrs {
+				if in == a {
+					return true
+				}
+				if in == b {
+					return false
+				}
+			}
+		}
+		return a.Block().Dominates(b.Block())
+	}
+	fromLookup := func(v ssa.Value) bool {
+		if ex, ok := v.(*ssa.Extract); ok {
+			v = ex.Tuple
+		}
+		lk, ok := v.(*ssa.Lookup)
+		return ok && isCacheMap(lk.X)
+	}
+	for _, fs := range fields {
+		var reaching *ssa.Store
+		for _, ws := range wholes {
+			if !before(ws, fs) {
+				continue
+			}
+			if reaching == nil || before(reaching, ws) {
+				reaching = ws
+			}
+		}
+		if reaching != nil && fromLookup(reaching.Val) {
+			return fs
+		}
+	}
+	return nil
 }
